@@ -43,6 +43,11 @@ type EchoCase struct {
 	From   int    `json:"from"`
 	To     int    `json:"to"`
 	Stride int    `json:"stride"`
+	// Part / Tier / Race: set when the finding is a crash of a worker process after a
+	// history of runs; the replay re-executes that worker's share up to To.
+	Part string `json:"part,omitempty"`
+	Tier string `json:"tier,omitempty"`
+	Race bool   `json:"race,omitempty"`
 }
 
 func (rf *ReplayFile) Write(path string) error {
